@@ -16,6 +16,8 @@ def main():
     d = f'/verif/seeded/{sid}'
     meta = json.load(open(f'{d}/meta.json'))
     checks = args[1:] or meta.get('checks_expected', [meta['property']])
+    if '--first-only' in flags:
+        checks = checks[:1]
     tier = 'thorough' if '--thorough' in flags else 'quick'
     in_repo = '--in-repo' in flags
     if in_repo:
